@@ -78,6 +78,7 @@ type gen struct {
 	generics []*Decl
 	insts    []*TExpr // generic instantiations usable as field types
 	subNames map[string]bool
+	usedDashComma bool
 }
 
 var typeStems = []string{"Item", "Order", "Client", "Invoice", "Ticket", "Parcel", "Wagon", "Garden", "Planet", "Route", "Sensor", "Ledger", "Recipe", "Module", "Window", "Bridge", "Castle", "Dragon", "Engine", "Forest", "Harbor", "Island", "Jungle", "Kernel", "Lantern", "Meadow", "Needle", "Orchard", "Pillar", "Quarry", "Rocket", "Saddle", "Tunnel", "Valley", "Walrus", "Yacht", "Zipper", "Anchor", "Basket", "Candle"}
@@ -487,6 +488,19 @@ func (g *gen) makeNameds() {
 }
 
 func (g *gen) keyType() *TExpr {
+	if g.pr(0.2) {
+		// a key type living in another package (another Dart file): sub-package enum or ID
+		var cands []*Decl
+		for _, d := range g.subTypes {
+			if d.Kind == DEnum || (d.Kind == DNamed && d.Under.K == TBasic && d.Under.Basic == "int64") {
+				cands = append(cands, d)
+			}
+		}
+		if len(cands) > 0 {
+			g.p.Feature("map-key-from-sub-package")
+			return Ref(cands[g.r.Intn(len(cands))])
+		}
+	}
 	if len(g.keyables) > 0 && g.pr(0.5) {
 		return Ref(g.keyables[g.r.Intn(len(g.keyables))])
 	}
@@ -605,7 +619,13 @@ func (g *gen) makeUnions() {
 		var d *Decl
 		switch g.r.Intn(6) {
 		case 0, 1, 2:
-			d = g.add(&Decl{Name: g.fresh(g.pick(typeStems)), Kind: DStruct})
+			name := g.fresh(g.pick(typeStems))
+			if g.pr(0.15) {
+				// an unexported struct implementing the union: its Kind tag is the Go name, lower case first
+				name = g.fresh(strings.ToLower(name[:1]) + name[1:] + "Impl")
+				g.p.Feature("union-member:unexported-struct")
+			}
+			d = g.add(&Decl{Name: name, Kind: DStruct})
 			nf := 1 + g.r.Intn(3)
 			for i := 0; i < nf; i++ {
 				d.Fields = append(d.Fields, &Field{Name: g.pick(fieldStems) + fmt.Sprint(i), Type: g.leafNoStruct()})
@@ -781,6 +801,10 @@ func (g *gen) tagFor(fieldName string, f *Field) {
 	case x < 14:
 		f.Tag = fmt.Sprintf(`json:"%s-dash" yaml:"y"`, snake)
 		g.p.Feature("tag:json-name-with-dash")
+	case x == 18 && !g.usedDashComma:
+		g.usedDashComma = true // the key is the fixed string "-": once per program
+		f.Tag = `json:"-,"`
+		g.p.Feature("tag:json-dash-comma")
 	case x < 15:
 		f.Tag = `gomacro-opaque:"typescript"`
 		g.p.Feature("tag:opaque-typescript")
@@ -938,6 +962,10 @@ func (g *gen) makeRecursive() {
 		d := g.add(&Decl{Name: g.fresh("Group" + strings.Title(un.Name)), Kind: DStruct})
 		d.Fields = []*Field{{Name: "Tag", Type: Basic("string")}, {Name: "Kids", Type: Ref(list)}}
 		d.Impls = append(d.Impls, &Impl{Union: un})
+		if g.pr(0.5) {
+			d.File, list.File = "other.go", "other.go" // only reached as a union member
+			g.p.Feature("recursive:through-union-member-in-other-file")
+		}
 		g.structs = append(g.structs, d)
 		g.p.Feature("recursive:through-union")
 	}
